@@ -34,7 +34,7 @@ NoObl == oblig' = Del(oblig, Ev.t)
 ToSet(q) == {q[i] : i \in 1..Len(q)}
 
 Init == /\ l = 1 /\ queue = <<>> /\ wOwner = <<>> /\ wCv = <<>> /\ done = {} /\ leader = 0 /\ grp = <<>> /\ grpOps = <<>>
-        /\ inserted = FALSE /\ lastSeq = 0 /\ sigs = {} /\ pend = <<>> /\ vers = [k \in Keys |-> <<>>] /\ cap = <<>>
+        /\ inserted = 0 /\ lastSeq = 0 /\ sigs = {} /\ pend = <<>> /\ vers = [k \in Keys |-> <<>>] /\ cap = <<>>
         /\ snapOf = <<>> /\ committed = {} /\ failedW = {} /\ lastEv = <<>> /\ oblig = <<>> /\ bgSched = 0 /\ bgRun = 0 /\ bgRe = 0 /\ closing = FALSE
 
 \* value of key k at sequence s: the newest version with seq <= s (versions are appended in sequence order)
@@ -50,7 +50,7 @@ U1 == UNCHANGED <<queue, wOwner, wCv, done, leader, grp, grpOps, inserted, lastS
 
 TReset == /\ l <= Len(T) /\ Ev.e = "Reset" /\ l' = l + 1
           /\ queue' = <<>> /\ wOwner' = <<>> /\ wCv' = <<>> /\ done' = {} /\ leader' = 0 /\ grp' = <<>> /\ grpOps' = <<>>
-          /\ inserted' = FALSE /\ lastSeq' = 0 /\ sigs' = {} /\ pend' = <<>> /\ vers' = [k \in Keys |-> <<>>] /\ cap' = <<>>
+          /\ inserted' = 0 /\ lastSeq' = 0 /\ sigs' = {} /\ pend' = <<>> /\ vers' = [k \in Keys |-> <<>>] /\ cap' = <<>>
           /\ snapOf' = <<>> /\ committed' = {} /\ failedW' = {} /\ lastEv' = <<>> /\ oblig' = <<>> /\ bgSched' = 0 /\ bgRun' = 0 /\ bgRe' = 0 /\ closing' = FALSE
 
 \* ---- driver events ----
@@ -104,7 +104,7 @@ TEnq == /\ Is("WEnq") /\ Has(pend, Ev.t) /\ pend[Ev.t].op \in {"write", "flush"}
         /\ UNCHANGED <<done, leader, grp, grpOps, inserted, lastSeq, sigs, pend, vers, cap, snapOf, committed, failedW, bgSched, bgRun, bgRe, closing>>
 \* only the head of the queue leads, and only one leader at a time
 TLead == /\ Is("WLead") /\ leader = 0 /\ queue # <<>> /\ Head(queue) = Ev.w /\ wOwner[Ev.w] = Ev.t /\ Ev.w \notin done /\ NoObl
-         /\ leader' = Ev.w /\ grp' = <<>> /\ grpOps' = <<>> /\ inserted' = FALSE /\ sigs' = {}
+         /\ leader' = Ev.w /\ grp' = <<>> /\ grpOps' = <<>> /\ inserted' = 0 /\ sigs' = {}
          /\ UNCHANGED <<queue, wOwner, wCv, done, lastSeq, pend, vers, cap, snapOf, committed, failedW, bgSched, bgRun, bgRe, closing>>
 RECURSIVE OpsOf(_)
 OpsOf(ms) == IF ms = <<>> THEN <<>>
@@ -118,12 +118,15 @@ TGroup == /\ Is("WGroup") /\ leader # 0 /\ wOwner[leader] = Ev.t /\ grp = <<>> /
              /\ \A i \in 2..n : SyncOf(Ev.members[i][1]) = 1 => SyncOf(leader) = 1   \* no sync write rides on a non-sync leader
           /\ Ev.first = lastSeq + 1                                                \* sequence numbers continue exactly
           /\ Ev.count = Len(OpsOf(Ev.members))
-          /\ grp' = Ev.members /\ grpOps' = OpsOf(Ev.members) /\ inserted' = FALSE
+          /\ grp' = Ev.members /\ grpOps' = OpsOf(Ev.members) /\ inserted' = 0
           /\ UNCHANGED <<queue, wOwner, wCv, done, leader, lastSeq, sigs, pend, vers, cap, snapOf, committed, failedW, bgSched, bgRun, bgRe, closing>>
 TLogAppend == /\ Is("LogAppend") /\ leader # 0 /\ wOwner[leader] = Ev.t /\ grp # <<>> /\ NoObl /\ U1
-TLogSync == /\ Is("LogSync") /\ leader # 0 /\ wOwner[leader] = Ev.t /\ SyncOf(leader) = 1 /\ NoObl /\ U1
+\* progress of the leader's group: +1 = the log was synced successfully, +2 = the group is in the memtable
+TLogSync == /\ Is("LogSync") /\ leader # 0 /\ wOwner[leader] = Ev.t /\ SyncOf(leader) = 1 /\ NoObl
+            /\ inserted' = (IF Ev.rc = 0 THEN 1 ELSE 0)
+            /\ UNCHANGED <<queue, wOwner, wCv, done, leader, grp, grpOps, lastSeq, sigs, pend, vers, cap, snapOf, committed, failedW, bgSched, bgRun, bgRe, closing>>
 TInsert == /\ Is("MemInsert") /\ leader # 0 /\ wOwner[leader] = Ev.t /\ grp # <<>> /\ NoObl
-           /\ inserted' = (Ev.rc = 0)
+           /\ inserted' = inserted + (IF Ev.rc = 0 THEN 2 ELSE 0)
            /\ UNCHANGED <<queue, wOwner, wCv, done, leader, grp, grpOps, lastSeq, sigs, pend, vers, cap, snapOf, committed, failedW, bgSched, bgRun, bgRe, closing>>
 \* publish only after the whole group is in the memtable; the group's operations take effect here, in queue order
 RECURSIVE AddVers(_, _, _)
@@ -131,7 +134,8 @@ AddVers(vs, ops, s) == IF ops = <<>> THEN vs
                        ELSE AddVers([vs EXCEPT ![Head(ops)[1]] = Append(@, <<s + 1, Head(ops)[2]>>)], Tail(ops), s + 1)
 TPublish == /\ Is("WPublish") /\ leader # 0 /\ wOwner[leader] = Ev.t /\ grp # <<>> /\ NoObl
             /\ Ev.last = lastSeq + Len(grpOps)
-            /\ IF Ev.rc = 0 THEN inserted /\ vers' = AddVers(vers, grpOps, lastSeq) ELSE UNCHANGED vers
+            \* a group led by a sync write is published (and acknowledged) only after its log records were fsynced (C02)
+            /\ IF Ev.rc = 0 THEN inserted >= 2 /\ (SyncOf(leader) = 1 => inserted = 3) /\ vers' = AddVers(vers, grpOps, lastSeq) ELSE UNCHANGED vers
             /\ lastSeq' = Ev.last /\ sigs' = {}
             /\ UNCHANGED <<queue, wOwner, wCv, done, leader, grp, grpOps, inserted, pend, cap, snapOf, committed, failedW, bgSched, bgRun, bgRe, closing>>
 \* condition variables: events come from inside the primitives, so a deleted call deletes its event
